@@ -2,6 +2,7 @@ package props
 
 import (
 	"go/token"
+	"go/types"
 	"strconv"
 	"verif/checker/internal/ana"
 
@@ -305,4 +306,9 @@ func globalsTouched(fn *ssa.Function) int {
 		}
 	}
 	return n
+}
+
+func isIntType(t types.Type) bool {
+	b, ok := t.Underlying().(*types.Basic)
+	return ok && b.Info()&types.IsInteger != 0
 }
